@@ -30,8 +30,15 @@ def make_scratch(worker):
         lock.close()
 
 
+def _scratch_dir(worker):
+    """One scratch tree per process and worker slot: two checks running side by side (two thorough tiers, a selftest next to a
+    `variant`) never share a directory.  The hard-linked target dirs stay shared per slot (cargo and the extraction lock serialise
+    their use)."""
+    return os.path.join(SCRATCH_ROOT, "xsv-variant-p%d-w%s" % (os.getpid(), worker))
+
+
 def _make_scratch(worker):
-    d = os.path.join(SCRATCH_ROOT, "xsv-variant-w%s" % worker)
+    d = _scratch_dir(worker)
     if os.path.exists(d):
         shutil.rmtree(d)
     os.makedirs(d)
@@ -66,7 +73,7 @@ def worker_target(worker):
 
 
 def cleanup(worker, target_too=False):
-    d = os.path.join(SCRATCH_ROOT, "xsv-variant-w%s" % worker)
+    d = _scratch_dir(worker)
     shutil.rmtree(d, ignore_errors=True)
     if target_too and str(worker) != "0":
         shutil.rmtree(os.path.join(SCRATCH_ROOT, "xsv-variant-target-w%s" % worker), ignore_errors=True)
